@@ -243,7 +243,7 @@ def keyFor (tag : Option String) (fm : FieldMeta) (schemaKey : String) : String 
 
 /-- `GetByField`'s key: the empty provider (nil input, empty map, `{}`) has no source tag of its
     own — it answers with the `zog` tag, else the schema key (for `{}` through zjson the json tag is
-    therefore not used: part of known finding D17) -/
+    therefore not used: known finding D40 (b), which S-front reports by comparing the front ends) -/
 def Prov.keyFor (p : Prov) (tag : Option String) (fm : FieldMeta) (schemaKey : String) : String :=
   match p with
   | .empty => Zog.Engine.keyFor none fm schemaKey
